@@ -2,7 +2,7 @@
    whichever the tree has; the driver probes it).  All statements are over the model, for every iteration order of the
    Go maps involved (the order is an argument) and every batch limit. *)
 From Coq Require Import List NArith Bool.
-From Verif.C23 Require Import Model Spec Lemmas ProofsGC ProofsSteps Witness Inv Binv Reach Grace Grace2.
+From Verif.C23 Require Import Model Spec Lemmas ProofsGC ProofsSteps Witness Inv Binv Reach Grace Grace2 NonK8s.
 Import ListNotations.
 Open Scope N_scope.
 
@@ -170,3 +170,44 @@ Theorem c23_release_only_invalid_after_grace : forall f w0 c0 evs norder gorder 
                       /\ (a_conf a0 = true \/ elapsed (f_grace f) (w_now w) a0)).
 Proof. exact grace_chain. Qed.
 Print Assumptions c23_release_only_invalid_after_grace.
+
+(* ======================= Calico nodes that are not Kubernetes nodes =======================
+   The syncer caches "" for such a node; kubernetesNodeForCalico then asks the datastore and answers
+   ErrorNotKubernetes (KErr) as long as the Calico node exists.  "Alive" (kexists) counts such a node as alive, so the
+   grace chain above (Dead = listed under a node that is not alive) already says that its tunnel and pod addresses are
+   never newly confirmed or released while it exists.  In addition, from any state / any reachable state: *)
+
+(* ReleaseHostAffinities (node cleanup) only for nodes that are not alive at that sync - never for a live
+   non-Kubernetes node *)
+Theorem c23_node_cleanup_only_dead : forall f w norder gorder border c n,
+  In n (so_rha (snd (sync_ipam f w norder gorder border c))) -> kexists w c n = false.
+Proof. exact sync_rha_dead. Qed.
+Print Assumptions c23_node_cleanup_only_dead.
+
+Theorem c23_nonk8s_node_not_cleaned_up : forall f w norder gorder border c n,
+  knode_for w c n = KErr -> ~ In n (so_rha (snd (sync_ipam f w norder gorder border c))).
+Proof. exact sync_rha_not_nonk8s. Qed.
+Print Assumptions c23_nonk8s_node_not_cleaned_up.
+
+(* every block released by a sync from a reachable state is a seen block affine to a node whose lookup does not
+   answer "not a Kubernetes node" *)
+Theorem c23_nonk8s_blocks_not_released : forall f w c norder gorder border,
+  is_repaired f -> reach f w c ->
+  Forall (rba_node_ok w c) (so_rba (snd (sync_ipam f w norder gorder border c))).
+Proof. exact sync_rba_not_nonk8s. Qed.
+Print Assumptions c23_nonk8s_blocks_not_released.
+
+(* a live non-Kubernetes node with a tunnel address and two empty blocks: two full syncs, more than the grace period
+   apart, release nothing and clean nothing up *)
+Definition nonk8s_events : list event :=
+  [ECNodeApi 1 (Some false); ECNodeSync 1 (Some false);
+   EBlock 1 (Some {| b_aff := AffHost 1; b_allocs := [mkBA 0 (Some 21) {| at_node := 1; at_pod := 0; at_tun := true |} 1] |});
+   EBlock 2 (Some {| b_aff := AffHost 1; b_allocs := [] |}); EBlock 3 (Some {| b_aff := AffHost 1; b_allocs := [] |}); EFull].
+Example c23_nonk8s_example :
+  let f := repaired (Some 900) 10000 in
+  let '(w, c) := run_events true nonk8s_events (world0, ctrl0) in
+  let '(c1, o1) := sync_ipam f w (nodes_to_check c) c_conf (fun c => map fst (c_empty c)) c in
+  let '(w2, c2) := run_events true [ETick 901; EFull] (w, c1) in
+  let '(c3, o2) := sync_ipam f w2 (nodes_to_check c2) c_conf (fun c => map fst (c_empty c)) c2 in
+  knode_for w c 1 = KErr /\ (so_rel o1, so_rba o1, so_rha o1) = ([], [], []) /\ (so_rel o2, so_rba o2, so_rha o2) = ([], [], []).
+Proof. vm_compute. repeat split; reflexivity. Qed.
